@@ -248,6 +248,7 @@ def run_ops(ops):
          {"op":"parse_file","i":k,...}   -> construct + parse through parsers.parse_file (the public entry)
          {"op":"mutate","i":k}           -> deep in-place mutation of as_dict() / data / meta obtained from instance k
          {"op":"drop","i":k}
+         {"op":"write","file":path,"src":path2,"mtime_ns":T}   -> the file at `path` is replaced (by the environment)
     Returns list of observations (one per parse / parse_file op, in order)."""
     import gc
     inst = {}
@@ -280,8 +281,11 @@ def run_ops(ops):
             except BaseException as e:  # noqa - StopIteration / SystemExit are observations too
                 if isinstance(e, KeyboardInterrupt):
                     raise
-                rec.update(digest="EXC:" + hashlib.sha256(f"{type(e).__name__}".encode()).hexdigest()[:24],
-                           exc=f"{type(e).__name__}: {str(e)[:200]}")
+                # an error is an outcome like any other: exception type + message (addresses removed)
+                import re
+                msg = re.sub(r"0x[0-9a-fA-F]+", "0x?", str(e))[:400]
+                rec.update(digest="EXC:" + hashlib.sha256(f"{type(e).__name__}|{msg}".encode("utf8", "replace")).hexdigest()[:24],
+                           exc=f"{type(e).__name__}: {msg[:200]}")
             rec["file_before"] = before
             rec["file_after"] = file_digest(path)
             obs.append(rec)
@@ -299,6 +303,11 @@ def run_ops(ops):
                         n += mutate_deep(got, seen)
                     except Exception:
                         pass
+        elif kind == "write":
+            # the environment replaces the file at a path: content of `src`, modification time as given
+            import shutil
+            shutil.copyfile(o["src"], o["file"])
+            os.utime(o["file"], ns=(int(o["mtime_ns"]), int(o["mtime_ns"])))
         elif kind == "drop":
             inst.pop(k, None)
             ndrop += 1
@@ -451,7 +460,8 @@ def main():
     import warnings
     warnings.simplefilter("ignore")
     if mode == "fresh":
-        res = run_ops([dict(op="parse_file", i=0, parser=job["parser"], file=job["file"], args=job.get("args"))])[0]
+        res = run_ops(list(job.get("prepare") or [])
+                      + [dict(op="parse_file", i=0, parser=job["parser"], file=job["file"], args=job.get("args"))])[0]
     elif mode == "history":
         res = run_ops(job["ops"])
     elif mode == "resolve":
